@@ -106,14 +106,16 @@ def certify_case(step, o):
 
     def key(a):
         k, ka, crit, _imp, _fresh = O.audit_fields(a)
-        return (k, tuple(ka), O.bits(O.from_list(table, crit)))
+        return (k, tuple(tuple(x) if isinstance(x, list) else x for x in ka), O.bits(O.from_list(table, crit)))
     pre = Counter(key(a) for a in O.pkg_store(step.pre_store["store"], ni)[1])
     post = Counter(key(a) for a in O.pkg_store(step.post_store["store"], ni)[1])
     fresh = sorted((post - pre).elements())
     if len(fresh) != 1:
         return None          # nothing new (an identical audit existed) or more than one (oracle_c11's business)
     k, ka, b = fresh[0]
-    return expr, [{"KFull": "full", "KDelta": "delta"}.get(k, k)] + [int(x) for x in ka] + [b]
+    if k not in ("KFull", "KDelta"):
+        return None
+    return expr, [{"KFull": "full", "KDelta": "delta"}[k]] + [int(x) for x in ka] + [b]
 
 
 def canon_certify(text):
@@ -156,7 +158,7 @@ def guess_case(step, o):
 
         def key(a):
             k, ka, crit, _imp, _fresh = O.audit_fields(a)
-            return (k, tuple(ka), O.bits(O.from_list(table, crit)))
+            return (k, tuple(tuple(x) if isinstance(x, list) else x for x in ka), O.bits(O.from_list(table, crit)))
         pre = Counter(key(a) for a in O.pkg_store(step.pre_store["store"], ni)[1])
         post = Counter(key(a) for a in O.pkg_store(step.post_store["store"], ni)[1])
         fresh = sorted((post - pre).elements())
